@@ -309,6 +309,25 @@ pub fn c16_scenarios() -> Vec<Scn> {
       ));
     }
   }
+  // interval on the default (synchronous) scheduler: ticks on the subscribing thread until take(n) ends it
+  v.push(time_scn(
+    "c16/interval(10ms, default scheduler).take(3) on the subscribing thread",
+    Some(1),
+    Some(1),
+    move |rec, _| {
+      let _s = rec.subscribe(&observables::interval(ms(10), schedulers::default_scheduler()).take(3), |x| x as i64);
+      rec.cb(EvK::Next(-1)); // marker: subscribe returned
+    },
+    move |tm, _, _| {
+      let got: Vec<(EvK, u64)> = tm.iter().map(|x| (x.k.clone(), x.at_ms)).collect();
+      let want = vec![(EvK::Next(0), 10), (EvK::Next(1), 20), (EvK::Next(2), 30), (EvK::Complete, 30)];
+      if got.len() == 5 && got[..4] == want[..] && got[4].0 == EvK::Next(-1) {
+        vec![]
+      } else {
+        vec![viol("interval-off-the-clock", format!("got {}, want n0@10 n1@20 n2@30 C@30 and then the return of subscribe", show_timed(tm)))]
+      }
+    },
+  ));
   // timer(d): once at d, then complete
   for d in [10u64, 20] {
     v.push(time_scn(
